@@ -82,9 +82,13 @@ def index (s : Seq) (i : Int) : Bytes :=
     | .ok f => s.frameInt f
     | .error _ => []
 
-/-- `SetDirname` (Unix separator) -/
+/-- the separator `SetDirname` appends: '\\' as soon as the directory contains one (the code
+    does this on every OS), else '/' (`filepath.Separator` on the modelled platform) -/
+def dirSep (d : Bytes) : Char := if d.contains '\\' then '\\' else '/'
+
+/-- `SetDirname` -/
 def setDirname (s : Seq) (d : Bytes) : Seq :=
-  { s with dir := if isSuffixOf ['/'] d then d else d ++ ['/'] }
+  { s with dir := if isSuffixOf [dirSep d] d then d else d ++ [dirSep d] }
 
 def setBasename (s : Seq) (b : Bytes) : Seq := { s with base := b }
 
